@@ -197,6 +197,9 @@ const (
 	OpInvoke     // c.Invoke(func(Token) ...) from inside the handler: a nested resolution in request scope
 	OpApply      // c.Apply(&struct{... `inject`}) in request scope
 	OpSeePath    // note the request path and method the handler sees
+	OpSeeBody    // read the request body through Request().Body() and note it
+	OpMapRH      // map a request-scoped ReturnHandler that marks what it renders
+	OpMutQuery   // fetch QueryStrings and overwrite the returned slice (must not reach anybody else)
 	OpReplaceCtx // install a derived cancellable context as the request's context (what a timeout middleware does); later cancels hit that one
 	opMax
 )
@@ -249,7 +252,8 @@ type Req struct {
 	Deadline      int64 // virtual ticks after start; 0 none
 	PlannedCancel int   // CancelAt as generated (Local.CancelAt is consumed during the run)
 	Tag           string
-	Chain         int // chain the request is meant to run (route index, -1 not-found), -99 unknown
+	Body          string // request body (empty: none)
+	Chain         int    // chain the request is meant to run (route index, -1 not-found), -99 unknown
 
 	// Recorded.
 	W             *Spy
